@@ -9,6 +9,7 @@ import (
 
 	wio "github.com/whatap/golib/io"
 	"github.com/whatap/golib/lang/pack"
+	"github.com/whatap/golib/lang/pack/udp"
 	"github.com/whatap/golib/lang/service"
 	"github.com/whatap/golib/lang/step"
 	"github.com/whatap/golib/lang/value"
@@ -165,6 +166,38 @@ func c04Pack() (pack.Pack, string) {
 	case *pack.ParamPack:
 		x.PutString("key", c04Text(simrt.Choose(50)))
 		x.PutLong("n", int64(simrt.Choose(1<<30)))
+	case *pack.EventPack:
+		x.Level = pack.WARNING
+		x.Title = c04Text(simrt.Choose(40))
+		x.Message = c04Text(simrt.Choose(300))
+		x.Attr.Put("k", "v"+strconv.Itoa(simrt.Choose(100)))
+	case *pack.ActiveStackPack:
+		x.Seq = int64(simrt.Choose(1 << 30))
+		x.CallStack = []int32{1, 2, int32(simrt.Choose(1000))}
+	case *pack.ExtensionPack:
+		x.Header.Put("h", int32(simrt.Choose(100)))
+		x.Value.Put(int32(simrt.Choose(10)), c04Value(1))
+	case *pack.HitMapPack1:
+		x.Add(simrt.Choose(9000), simrt.Chance(1, 3))
+	case *pack.TagLogPack:
+		x.PutTag("t", c04Text(simrt.Choose(30)))
+		x.Put("n", simrt.Choose(1000))
+	case *pack.ProfilePack:
+		var steps []step.Step
+		for i := 0; i < 1+simrt.Choose(3); i++ {
+			s := step.CreateStep(c04StepTypes[simrt.Choose(len(c04StepTypes))])
+			s.SetStartTime(int32(i))
+			steps = append(steps, s)
+		}
+		x.SetProfile(steps)
+	case *pack.ErrorSnapPack1:
+		x.SetStack([]int32{5, 6, 7})
+	case *pack.LogSinkZipPack:
+		x.SetRecords(make([]byte, []int{0, 10, 200}[simrt.Choose(3)]), 100)
+	case *pack.StatGeneralPack:
+		l := list.NewIntListDefault()
+		l.AddInt(simrt.Choose(100))
+		x.Put("col", l)
 	}
 	return p, pack.GetPackTypeString(t)
 }
@@ -183,12 +216,32 @@ var c04SM = []func() (c04RW, string){
 	func() (c04RW, string) { return pack.NewSMLogEventPack(), "SMLogEventPack" },
 }
 
+var c04UdpTypes = []uint8{udp.TX_START, udp.TX_DB_CONN, udp.TX_DB_FETCH, udp.TX_SQL, udp.TX_SQL_START, udp.TX_SQL_END, udp.TX_HTTPC, udp.TX_HTTPC_START,
+	udp.TX_HTTPC_END, udp.TX_ERROR, udp.TX_MSG, udp.TX_METHOD, udp.TX_SECURE_MSG, udp.TX_SQL_PARAM, udp.TX_RESULT_SET, udp.TX_PARAM, udp.ACTIVE_STACK,
+	udp.ACTIVE_STATS, udp.DBCONN_POOL, udp.TX_START_END, udp.TX_END}
+
 var c04StepTypes = []byte{step.STEP_METHOD_X, step.STEP_SQL_X, step.STEP_RESULTSET, step.STEP_SOCKET, step.STEP_HTTPCALL_X,
 	step.STEP_ACTIVE_STACK, step.STEP_MESSAGE, step.STEP_SECURE_MESSAGE, step.STEP_DBC}
 
 // c04Gen draws one valid encoding and the decoder that must consume it.
 func c04Gen() (c04Case, []byte, func(in *wio.DataInputX)) {
-	switch simrt.Choose(10) {
+	switch simrt.Choose(11) {
+	case 10:
+		// UDP tracer packs: decoded with an explicit type and protocol version
+		t := c04UdpTypes[simrt.Choose(len(c04UdpTypes))]
+		ver := []int32{10101, 10110, 20101, 20104, 30101, 30103, 50100, 50101}[simrt.Choose(8)]
+		p := udp.CreatePack(t, ver)
+		if p == nil {
+			panic("no such udp pack")
+		}
+		b := udp.ToBytesPack(p)
+		udp.ClosePack(p)
+		return c04Case{Kind: "udppack", Desc: fmt.Sprintf("type %d ver %d", t, ver)}, b, func(in *wio.DataInputX) {
+			q := udp.ReadPack(t, ver, in)
+			if q != nil {
+				udp.ClosePack(q)
+			}
+		}
 	case 0, 1, 2:
 		v := c04Value(3)
 		b := value.WriteValue(wio.NewDataOutputX(), v).ToByteArray()
@@ -370,8 +423,10 @@ func c04Body(rc *RunCtx) {
 	if full.panicked || full.avail != 0 {
 		d.Notes = append(d.Notes, fmt.Sprintf("corpus entry not self-consistent: panicked=%v %s avail=%d", full.panicked, full.msg, full.avail))
 		simrt.Probe("corpus_invalid")
+		simrt.Probe("corpus_invalid:" + cs.Kind)
 		return
 	}
+	simrt.Probe("corpus:" + cs.Kind)
 	bound := func(n int) uint64 { return 4<<20 + 64*uint64(n) }
 	n := len(enc)
 	// (a) truncation at every offset, buffer mode and connection mode
